@@ -22,7 +22,8 @@ Record Waiting (s : sys) (c u : nat) (names : list fname) (v : chan) : Prop := {
   w_state : c_state v = OPEN;
   w_errs : c_errs v = [];
   w_req : forall n, req_get (c_req v) n = if in_names n names then Some u else None;
-  w_resp : resp_get (c_resp v) u = Some []
+  w_resp : resp_get (c_resp v) u = Some [];
+  w_ret : c_ret v = None          (* no content of a returned message is on its way *)
 }.
 
 Lemma fname_eqb_eq a b : fname_eqb a b = true -> a = b.
@@ -39,9 +40,9 @@ Proof. intros H. unfold deliver. rewrite H. reflexivity. Qed.
 
 Lemma waiting_upd s c u names v v' :
   Waiting s c u names v -> c_state v' = c_state v -> c_errs v' = c_errs v ->
-  c_req v' = c_req v -> c_resp v' = c_resp v -> Waiting (upd s c v') c u names v'.
+  c_req v' = c_req v -> c_resp v' = c_resp v -> c_ret v' = c_ret v -> Waiting (upd s c v') c u names v'.
 Proof.
-  intros W H1 H2 H3 H4. destruct (upd_conn s c v') as (A & B & _ & D & _ & SF).
+  intros W H1 H2 H3 H4 H5. destruct (upd_conn s c v') as (A & B & _ & D & _ & SF).
   constructor.
   - apply W.
   - eapply upd_same. apply W.
@@ -52,6 +53,7 @@ Proof.
   - rewrite H2. apply W.
   - rewrite H3. apply W.
   - rewrite H4. apply W.
+  - rewrite H5. apply W.
 Qed.
 
 (* a quiet frame keeps the channel waiting *)
@@ -71,7 +73,8 @@ Proof.
     apply andb_true_iff in Hq. destruct Hq as [Hq Hclose].
     apply andb_true_iff in Hq. destruct Hq as [Hn Hret].
     apply negb_true_iff in Hn, Hret, Hclose.
-    unfold on_frame. rewrite (w_reg _ _ _ _ _ W'), (w_req _ _ _ _ _ W'), Hn.
+    unfold on_frame. rewrite (w_reg _ _ _ _ _ W'), (w_ret _ _ _ _ _ W'). unfold on_frame_plain.
+    rewrite (w_req _ _ _ _ _ W'), Hn.
     destruct (is_content (f_name f)) eqn:Ec.
     + eexists. apply (waiting_upd s' c u names v _ W'); reflexivity.
     + destruct (f_name f) eqn:En; try discriminate;
@@ -125,16 +128,15 @@ Proof.
   set (v1 := {| c_state := CLOSED;
                 c_errs := c_errs v ++ [{| e_kind := EChan; e_code := Some code |}];
                 c_req := c_req v; c_resp := c_resp v; c_inbound := []; c_tags := [];
-                c_cbs := c_cbs v; c_confirm := c_confirm v; c_pubs := c_pubs v |}).
+                c_cbs := c_cbs v; c_confirm := c_confirm v; c_ret := c_ret v; c_pubs := c_pubs v |}).
   exists v1, l. split; [exact (upd_same s1 c v1 v Hreg') | exact Hr].
 Qed.
 
-Lemma on_frame_answered s c u f k g : Answered s c u f -> Answered (on_frame s k g) c u f.
+Lemma on_frame_plain_answered s c u f g v l :
+  get_chan (s_chans s) c = Some v -> resp_get (c_resp v) u = Some (f :: l) ->
+  Answered (on_frame_plain s c v g) c u f.
 Proof.
-  intros [v [l [Hreg Hr]]]. unfold Answered.
-  destruct (Nat.eq_dec k c) as [->|Hne].
-  2:{ exists v, l. rewrite on_frame_other by congruence. auto. }
-  unfold on_frame. rewrite Hreg.
+  intros Hreg Hr. unfold Answered, on_frame_plain.
   destruct (req_get (c_req v) (f_name g)) as [u'|].
   - destruct (resp_get (c_resp v) u') as [fs|] eqn:E; [|exists v, l; auto].
     destruct (Nat.eq_dec u' u) as [->|Hu].
@@ -146,6 +148,19 @@ Proof.
     destruct (f_name g); try (exists v, l; now auto);
       try (do 2 eexists; split; [eapply upd_same; exact Hreg | exact Hr]).
     exact (close_channel_answered s c u f v l (f_num g) Hreg Hr).
+Qed.
+
+Lemma on_frame_answered s c u f k g : Answered s c u f -> Answered (on_frame s k g) c u f.
+Proof.
+  intros [v [l [Hreg Hr]]].
+  destruct (Nat.eq_dec k c) as [->|Hne].
+  2:{ exists v, l. rewrite on_frame_other by congruence. auto. }
+  unfold on_frame. rewrite Hreg.
+  destruct (c_ret v) as [lft|]; [|exact (on_frame_plain_answered s c u f g v l Hreg Hr)].
+  destruct (ret_content lft g) as [r|].
+  - exists (with_inbound (with_ret v r) (c_inbound v ++ [g])), l.
+    split; [eapply upd_same; exact Hreg | exact Hr].
+  - apply (on_frame_plain_answered _ c u f g (with_ret v None) l); [eapply upd_same; exact Hreg | exact Hr].
 Qed.
 
 Lemma deliver_answered s c u f cf : Answered s c u f -> Answered (deliver s cf) c u f.
@@ -173,7 +188,8 @@ Proof.
   intros W Hn. unfold Answered. rewrite (deliver_log s _ (w_io _ _ _ _ _ W)). cbv zeta. cbn [fst snd].
   replace (Nat.eqb c 0) with false by (symmetry; apply Nat.eqb_neq; apply W).
   unfold on_frame. cbn [s_chans].
-  rewrite (w_reg _ _ _ _ _ W), (w_req _ _ _ _ _ W), Hn, (w_resp _ _ _ _ _ W).
+  rewrite (w_reg _ _ _ _ _ W), (w_ret _ _ _ _ _ W). unfold on_frame_plain.
+  rewrite (w_req _ _ _ _ _ W), Hn, (w_resp _ _ _ _ _ W).
   do 2 eexists. split.
   - eapply upd_same. cbn [s_chans]. apply W.
   - cbn [c_resp with_rpc]. rewrite resp_set_get. reflexivity.
@@ -189,12 +205,11 @@ Proof.
   destruct (Nat.eqb k u) eqn:E; cbn [map fst]; [reflexivity|]. intros H. now rewrite IH.
 Qed.
 
-Lemma on_frame_shape s c rq ks k g : Shape s c rq ks -> Shape (on_frame s k g) c rq ks.
+Lemma on_frame_plain_shape s c rq ks g v :
+  get_chan (s_chans s) c = Some v -> c_req v = rq -> map fst (c_resp v) = ks ->
+  Shape (on_frame_plain s c v g) c rq ks.
 Proof.
-  intros (v & Hreg & Hq & Hk). unfold Shape.
-  destruct (Nat.eq_dec k c) as [->|Hne].
-  2:{ exists v. rewrite on_frame_other by congruence. auto. }
-  unfold on_frame. rewrite Hreg.
+  intros Hreg Hq Hk. unfold Shape, on_frame_plain.
   destruct (req_get (c_req v) (f_name g)) as [u'|].
   - destruct (resp_get (c_resp v) u') as [fs|] eqn:E; [|exists v; auto].
     eexists. split; [eapply upd_same; exact Hreg|]. cbn [c_req c_resp with_rpc].
@@ -209,6 +224,18 @@ Proof.
     { unfold s1. destruct (st_eqb (s_conn s) CLOSED); [exact Hreg|].
       destruct (write_chans s c WChCloseOk []) as [E _]. rewrite E. exact Hreg. }
     eexists. split; [exact (upd_same s1 c _ v Hreg')|]. cbn. auto.
+Qed.
+
+Lemma on_frame_shape s c rq ks k g : Shape s c rq ks -> Shape (on_frame s k g) c rq ks.
+Proof.
+  intros (v & Hreg & Hq & Hk).
+  destruct (Nat.eq_dec k c) as [->|Hne].
+  2:{ exists v. rewrite on_frame_other by congruence. auto. }
+  unfold on_frame. rewrite Hreg.
+  destruct (c_ret v) as [lft|]; [|exact (on_frame_plain_shape s c rq ks g v Hreg Hq Hk)].
+  destruct (ret_content lft g) as [r|].
+  - eexists. split; [eapply upd_same; exact Hreg|]. auto.
+  - apply (on_frame_plain_shape _ c rq ks g (with_ret v None)); [eapply upd_same; exact Hreg | exact Hq | exact Hk].
 Qed.
 
 Lemma deliver_shape s c rq ks cf : Shape s c rq ks -> Shape (deliver s cf) c rq ks.
@@ -350,7 +377,7 @@ Qed.
 Theorem rpc_request_own_reply s c v w wstr names pre tpre f tpost rest :
   c <> 0%nat -> get_chan (s_chans s) c = Some v -> conn_healthy s -> s_io s = true ->
   s_sendfail s = false ->
-  c_state v = OPEN -> c_errs v = [] -> c_req v = [] -> c_resp v = [] ->
+  c_state v = OPEN -> c_errs v = [] -> c_req v = [] -> c_resp v = [] -> c_ret v = None ->
   forallb (fun t => forallb (quiet c names) t) pre = true ->
   forallb (quiet c names) tpre = true -> in_names (f_name f) names = true ->
   exists s' v',
@@ -359,7 +386,7 @@ Theorem rpc_request_own_reply s c v w wstr names pre tpre f tpost rest :
     c_req v' = [] /\ c_resp v' = [] /\
     get_chan (s_chans s') c = Some v'.
 Proof.
-  intros Hc Hreg Hh Hio Hsf Hst Herr Hreq Hresp Hpre Htpre Hn.
+  intros Hc Hreg Hh Hio Hsf Hst Herr Hreq Hresp Hret Hpre Htpre Hn.
   unfold rpc_request, adapter_check, chan_check.
   rewrite (conn_check_ok s Hh), Herr, Hst. cbn [st_eqb].
   unfold register. rewrite Hreg. cbv zeta.
@@ -379,7 +406,8 @@ Proof.
     - exact Hst.
     - exact Herr.
     - intros n. unfold v1. cbn [c_req with_rpc]. rewrite req_fold_get, Hreq. reflexivity.
-    - unfold v1. cbn [c_resp with_rpc]. rewrite Hresp. cbn. now rewrite Nat.eqb_refl. }
+    - unfold v1. cbn [c_resp with_rpc]. rewrite Hresp. cbn. now rewrite Nat.eqb_refl.
+    - exact Hret. }
   assert (Hsh : Shape s2 c (c_req v1) [u]).
   { exists v1. split; [apply W|]. split; [reflexivity|].
     unfold v1. cbn [c_resp with_rpc]. rewrite Hresp. reflexivity. }
@@ -400,12 +428,12 @@ Qed.
 
 (* ---------- unsolicited frames are never taken for replies, and never lost ---------- *)
 Theorem unsolicited_not_claimed s c v f :
-  get_chan (s_chans s) c = Some v -> req_get (c_req v) (f_name f) = None ->
+  get_chan (s_chans s) c = Some v -> c_ret v = None -> req_get (c_req v) (f_name f) = None ->
   exists v', get_chan (s_chans (on_frame s c f)) c = Some v' /\
              c_resp v' = c_resp v /\ c_req v' = c_req v /\
              (is_content (f_name f) = true -> c_inbound v' = c_inbound v ++ [f]).
 Proof.
-  intros Hreg Hn. unfold on_frame. rewrite Hreg, Hn.
+  intros Hreg Hret Hn. unfold on_frame. rewrite Hreg, Hret. unfold on_frame_plain. rewrite Hn.
   destruct (is_content (f_name f)) eqn:Ec.
   - eexists. split; [eapply upd_same; exact Hreg|]. cbn. auto.
   - destruct (f_name f) eqn:En; try discriminate;
@@ -423,16 +451,16 @@ Qed.
 Theorem consume_confirmed_tag s c v tag pre tpre f tpost rest :
   c <> 0%nat -> get_chan (s_chans s) c = Some v -> conn_healthy s -> s_io s = true ->
   s_sendfail s = false ->
-  c_state v = OPEN -> c_errs v = [] -> c_req v = [] -> c_resp v = [] ->
+  c_state v = OPEN -> c_errs v = [] -> c_req v = [] -> c_resp v = [] -> c_ret v = None ->
   forallb (fun t => forallb (quiet c [NConsumeOk]) t) pre = true ->
   forallb (quiet c [NConsumeOk]) tpre = true -> f_name f = NConsumeOk ->
   exists s' v',
     do_consume (pre ++ (tpre ++ (c, f) :: tpost) :: rest) s c v tag = (s', v', RTag (f_str f), rest) /\
     mem_tag (f_str f) (c_tags v') = true /\ mem_tag (f_str f) (c_cbs v') = true.
 Proof.
-  intros Hc Hreg Hh Hio Hsf Hst He Hq Hr Hpre Htpre Hn. unfold do_consume.
+  intros Hc Hreg Hh Hio Hsf Hst He Hq Hr Hret Hpre Htpre Hn. unfold do_consume.
   destruct (rpc_request_own_reply s c v WConsume tag [NConsumeOk] pre tpre f tpost rest
-              Hc Hreg Hh Hio Hsf Hst He Hq Hr Hpre Htpre) as (s1 & v1 & E & _).
+              Hc Hreg Hh Hio Hsf Hst He Hq Hr Hret Hpre Htpre) as (s1 & v1 & E & _).
   { unfold in_names. cbn. now rewrite Hn. }
   rewrite E. eexists _, _. split; [reflexivity|]. cbn [c_tags c_cbs with_cbs with_tags].
   assert (Hm : forall l t, mem_tag t (if mem_tag t l then l else l ++ [t]) = true).
